@@ -1,6 +1,7 @@
 package cdcnx
 
 import (
+	"encoding/json"
 	"fmt"
 	"math"
 	"sort"
@@ -48,8 +49,21 @@ func AtomCounts() []D {
 // Build constructs the real value a descriptor denotes.  Leaves are either
 // evaluated literals ({"k":"lit","g":...} built by the caller into "v") or
 // atoms {"k":"atom","c":class,"i":index}.
-func Build(d any, lits []Lit) any {
+func Build(d any, lits []Lit) any { return build(d, lits, nil) }
+
+// BuildShared builds structurally equal sub-collections as ONE shared object
+// (a value may hold the same collection in several places).
+func BuildShared(d any, lits []Lit) any { return build(d, lits, map[string]any{}) }
+
+func build(d any, lits []Lit, memo map[string]any) (out any) {
 	var x = d.(map[string]any)
+	if memo != nil && x["k"] == "coll" {
+		var key, _ = json.Marshal(d)
+		if v, ok := memo[string(key)]; ok {
+			return v
+		}
+		defer func() { memo[string(key)] = out }()
+	}
 	switch x["k"] {
 	case "atom":
 		return Atoms[x["c"].(string)][int(x["i"].(float64))-1]
@@ -57,12 +71,12 @@ func Build(d any, lits []Lit) any {
 		var l = lits[int(x["i"].(float64))-1]
 		return literalValue(Expand(l.T), l.C)
 	case "assoc":
-		return col.Association[any, any](notation).Make(Build(x["key"], lits), Build(x["val"], lits))
+		return col.Association[any, any](notation).Make(build(x["key"], lits, memo), build(x["val"], lits, memo))
 	}
 	var items = x["items"].([]any)
 	var vals = make([]any, len(items))
 	for i, it := range items {
-		vals[i] = Build(it, lits)
+		vals[i] = build(it, lits, memo)
 	}
 	switch x["kind"] {
 	case "Array":
@@ -189,11 +203,16 @@ func format(v any, watchdog time.Duration) (text string, status string, detail s
 
 // RoundTrip formats the value a descriptor denotes, parses the text back and
 // formats the result again.
-func RoundTrip(d any, lits []Lit) (rec Rec, skip bool) {
+func RoundTrip(d any, lits []Lit, shared bool) (rec Rec, skip bool) {
 	if !representable(d, lits) {
 		return rec, true
 	}
-	var v = Build(d, lits)
+	var v any
+	if shared {
+		v = BuildShared(d, lits)
+	} else {
+		v = Build(d, lits)
+	}
 	var want = Project(v)
 	rec = Rec{Want: want, Got: D{"k": "none"}}
 	var text, st, detail = format(v, 5*time.Second)
